@@ -36,6 +36,31 @@ P = {
         text="Decides the structural necessary conditions of C11: the ground dynamics' start datetime is the scenario start instant exactly (the JD->datetime conversion must round) (R1); the configured state is captured Earth-fixed at one instant, the clock's start (R2); Terrestrial.propagate depends only on the captured Earth-fixed state and start + elapsed seconds (R3); geodetic configuration slots and degree conversion (R4). Does NOT decide the metre-level accuracy of the reduction nor the inertial velocity values.",
         ref="DESIGN.md section 4, C11",
     ),
+    "C02": dict(
+        technique="static analysis: CFG must-pass-through / control-dependence of every observation and miss on its constraint atoms, comparator-polarity table over semantic operand kinds, path counting of primary records",
+        text="Decides the structural necessary conditions of C02 on every path of the observation pipeline: reported and predicted observations are dominated by the passing slew, field-of-view and visibility checks (R1); each sensor class' isVisible passes every constraint atom of that class before `return True` (R2); each miss reason is control-dependent on its own constraint failing (R3); guards compare the documented operands with the documented operator (R4); exactly one record of the tasked target per path (R5); background targets exclude the primary, share the pointing and are slew-gated (R6); the measurement is taken from the tested geometry and noise is drawn only when requested (R7). Does NOT decide that each predicate equals the exact geometry, nor the noise magnitude.",
+        ref="DESIGN.md section 4, C02",
+    ),
+    "C04": dict(
+        technique="static analysis: normal forms of rotation chains (rot_i, transposes, named reduction matrices) and duality check between inverse pairs, call-tree reversal of composites, matrix-literal algebra, sibling agreement",
+        text="Decides the structural necessary conditions of C04: each primitive conversion pair is the reversed chain of inverse factors with opposite transport terms (R1); composites are reversed compositions of inverse primitives with identical parameter slots (R2); rot1-3, skewSymmetric and dotRot literals have their algebraic shape (R3); reduction parameters are mutual transposes in both builders (R4); the two sidereal-rotation siblings agree (R5); calendar tables (R6). Does NOT decide inverse accuracy to rounding, continuity in time, or the geodetic closed form (numerics).",
+        ref="DESIGN.md section 4, C04",
+    ),
+    "C06": dict(
+        technique="static analysis: path-sensitive generation typestate over self-fields with inlined self-method calls; normal-form comparison with the documented unscented-transform formulas",
+        text="Decides the structural necessary conditions of C06 on every path of predict/forecast/update for both resampling modes: state and measurement residuals paired in the cross covariance come from one sigma-point generation and the prediction/forecast products are the documented formulas (R1); the no-observation path returns the propagated mean and covariance untouched (R2); all stacked quantities iterate the same observation sequence in order and the update is x = pred_x + K nu (R3); unscented weights and sigma-point construction follow the documented formulas (R4). Does NOT decide equality with the Kalman filter as numbers, PSD-ness, or weight sums.",
+        ref="DESIGN.md section 4, C06",
+    ),
+    "C14": dict(
+        technique="static analysis: angle-kind dataflow (wrap discipline), exhaustive weak-ordering evaluation of the mask predicates against an independent circular-interval specification, comparator-polarity and operand checks of helpers",
+        text="Decides the structural necessary conditions of C14: azimuth differences are wrapped to (-pi, pi] before use (R1); the azimuth-mask accept condition equals the circular-interval specification and the elevation mask equals e0 <= el <= e1 on every weak ordering of their symbols - an exhaustive finite case split valid for all inputs (R2); polarity and operands of lineOfSight and the lighting / limb / exclusion helpers (R3); conic and rectangular field-of-view tests are functions of the angular offsets with the documented widths (R4). Does NOT decide geometric exactness as values or the Sun-fraction range.",
+        ref="DESIGN.md section 4, C14",
+    ),
+    "C19": dict(
+        technique="static analysis: override exhaustiveness from the session-writing closure, who-may-call, propositional implication of the raise condition, remote-handle typing (ray.put provenance) with attribute resolution",
+        text="Decides the structural necessary conditions of C19: every public mutating method of the data interface is overridden by a raise in the importer, private writers are unreachable from run-path modules and run paths use only the non-committing getData (R1); the condition of the MissingEphemerisError raise is implied by 'registered minus retrieved is non-empty' for every value of the other atoms (R2); records are imported into the registrant of their own id, which is then removed (R3); imported observations flow to saveObservations and every attribute read on a ray.get value resolves in the class its handle was put with (R4). Does NOT decide the contents of arbitrary importer files.",
+        ref="DESIGN.md section 4, C19",
+    ),
 }
 
 NA_PENDING = "check not built yet in this session (design in DESIGN.md section 4); will be claimed once its rule module exists"
